@@ -1084,6 +1084,11 @@ def delete_unreachable_code(source: str) -> str:
 
     transaction = 0
     for node in parsing.iter_bodies_recursive(root):
+        if isinstance(node, ast.ClassDef):
+            # Like the body of the module, it defines names for others, which this rule knows
+            # nothing about (it takes no preserve)
+            continue
+
         if not isinstance(node, (ast.If, ast.While)):
             for unreachable_node in _iter_unreachable_nodes(node.body):
                 yield unreachable_node, None, transaction
